@@ -456,7 +456,8 @@ pub fn check_run(
         // continuation: the recovered store must accept writes, flushes and a further restart
         if cc.continuation {
             if let Outcome::Opened { state, entries, read_err: None } = &res.outcome {
-                let sample = only.is_some() || cc.thorough && stats.continuations < 400 || rng.chance(if c.kind == CrashKind::Process { 30 } else { 8 });
+                let pct = if !cc.check_recoverable { 4 } else if c.kind == CrashKind::Process { 30 } else { 8 };
+                let sample = only.is_some() || cc.thorough && stats.continuations < 400 || rng.chance(pct);
                 if let (true, Some(j)) = (sample, match_prefix(&facts.prefix, 0, facts.prefix.len() - 1, state, entries)) {
                     stats.continuations += 1;
                     *stats.probes.entry("continuation_after_recovery".into()).or_default() += 1;
